@@ -16,6 +16,7 @@ import (
 	"github.com/segmentio/kafka-go/protocol/apiversions"
 	"github.com/segmentio/kafka-go/protocol/fetch"
 	"github.com/segmentio/kafka-go/protocol/findcoordinator"
+	"github.com/segmentio/kafka-go/protocol/listgroups"
 	"github.com/segmentio/kafka-go/protocol/listoffsets"
 	"github.com/segmentio/kafka-go/protocol/metadata"
 	"github.com/segmentio/kafka-go/protocol/offsetfetch"
@@ -115,6 +116,7 @@ var ApiTable = []apiversions.ApiKeyResponse{
 
 type bconn struct {
 	idx      int
+	broker   int // cluster mode: the broker id this connection was dialled to (0 = bootstrap address)
 	client   *End
 	server   *End
 	wmu      sync.Mutex // serialises answer frames
@@ -138,6 +140,16 @@ type Broker struct {
 	script map[string]Action
 	cuts   map[string][2]int // tag -> (bytes written, frame length) of CutAt / CutSilent answers
 	topics []string
+
+	// cluster mode (op trsplit): nBrokers brokers "b1".."bN" (all served by this fake, told apart by the
+	// dialled address), a split topic with nParts partitions, partition p led by broker 1 + p % nBrokers
+	nBrokers   int
+	splitTopic string
+	nParts     int
+	qas        []QA // every (question, answer) pair this broker produced for the split topic / list groups
+
+	// records mode (op trpage): fetch answers with real record batches, per topic
+	records map[string][]RecSpec
 
 	gateCh   chan struct{}
 	gateN    int
@@ -248,7 +260,163 @@ func (b *Broker) Close() {
 // Dial hands out a new connection; usable as kafka.Dialer.DialFunc and
 // kafka.Transport.Dial.  Connections are numbered in dial order.
 func (b *Broker) Dial(ctx context.Context, network, address string) (net.Conn, error) {
-	return b.DialEnd(), nil
+	cl := b.DialEnd()
+	if strings.HasPrefix(address, "b") {
+		if i := strings.IndexByte(address, ':'); i > 1 {
+			if id, err := strconv.Atoi(address[1:i]); err == nil {
+				b.mu.Lock()
+				for _, c := range b.conns {
+					if c.client == cl {
+						c.broker = id
+					}
+				}
+				b.mu.Unlock()
+			}
+		}
+	}
+	return cl, nil
+}
+
+// RecSpec describes one record of a scripted fetch answer: the value is ValueLen copies of the
+// topic's last byte; KeyMode 0 = nil key, 1 = empty non-nil key, 2 = key of KeyLen copies of that byte.
+type RecSpec struct {
+	KeyMode  int
+	KeyLen   int
+	ValueLen int
+}
+
+// SetRecords makes Fetch requests for the given topics answer with record batches (v2).
+func (b *Broker) SetRecords(m map[string][]RecSpec) {
+	b.mu.Lock()
+	b.records = m
+	b.mu.Unlock()
+}
+
+func (b *Broker) recordsAnswer(msg protocol.Message) protocol.Message {
+	m, ok := msg.(*fetch.Request)
+	if !ok || len(m.Topics) == 0 {
+		return nil
+	}
+	b.mu.Lock()
+	specs, ok := b.records[m.Topics[0].Topic]
+	b.mu.Unlock()
+	if !ok {
+		return nil
+	}
+	topic := m.Topics[0].Topic
+	letter := topic[len(topic)-1]
+	now := time.Unix(1700000000, 0)
+	recs := make([]protocol.Record, len(specs))
+	for i, sp := range specs {
+		r := protocol.Record{Offset: int64(i), Time: now, Value: protocol.NewBytes(bytes.Repeat([]byte{letter}, sp.ValueLen))}
+		switch sp.KeyMode {
+		case 1:
+			r.Key = protocol.NewBytes([]byte{})
+		case 2:
+			r.Key = protocol.NewBytes(bytes.Repeat([]byte{letter}, sp.KeyLen))
+		}
+		recs[i] = r
+	}
+	return &fetch.Response{Topics: []fetch.ResponseTopic{{Topic: topic, Partitions: []fetch.ResponsePartition{{
+		Partition: m.Topics[0].Partitions[0].Partition, HighWatermark: int64(len(specs)), LastStableOffset: int64(len(specs)),
+		RecordSet: protocol.RecordSet{Version: 2, Records: protocol.NewRecordReader(recs...)},
+	}}}}}
+}
+
+// QA is one question the fake answered in cluster mode and the answer it gave.
+//
+//	ListOffsets on the split topic: K1 = partition, K2 = timestamp asked, Val = offset answered
+//	ListGroups:                     K1 = broker asked, K2 = group number, Val = broker that owns the group
+type QA struct{ K1, K2, Val int64 }
+
+// SplitOffset is the answer to "offset of partition p at timestamp ts" on the split topic.
+func SplitOffset(p int32, ts int64) int64 {
+	switch ts {
+	case -2:
+		return 1000*int64(p) + 1
+	case -1:
+		return 1000*int64(p) + 999
+	}
+	return 1000*int64(p) + 100 + ts%800
+}
+
+// SetCluster switches the fake to cluster mode.
+func (b *Broker) SetCluster(nBrokers int, splitTopic string, nParts int) {
+	b.mu.Lock()
+	b.nBrokers, b.splitTopic, b.nParts = nBrokers, splitTopic, nParts
+	b.mu.Unlock()
+}
+
+// QAs returns the (question, answer) pairs produced so far.
+func (b *Broker) QAs() []QA {
+	b.mu.Lock()
+	defer b.mu.Unlock()
+	return append([]QA(nil), b.qas...)
+}
+
+// BrokerOfConn is the broker id connection i was dialled to.
+func (b *Broker) BrokerOfConn(i int) int {
+	b.mu.Lock()
+	defer b.mu.Unlock()
+	if i < 0 || i >= len(b.conns) {
+		return -1
+	}
+	return b.conns[i].broker
+}
+
+// clusterAnswer builds the answers that depend on the cluster layout; nil = use Frame.
+func (b *Broker) clusterAnswer(c *bconn, msg protocol.Message) protocol.Message {
+	b.mu.Lock()
+	defer b.mu.Unlock()
+	if b.nBrokers == 0 {
+		return nil
+	}
+	switch m := msg.(type) {
+	case *metadata.Request:
+		r := &metadata.Response{ClusterID: "fake", ControllerID: 1}
+		for id := 1; id <= b.nBrokers; id++ {
+			r.Brokers = append(r.Brokers, metadata.ResponseBroker{NodeID: int32(id), Host: "b" + strconv.Itoa(id), Port: 9092})
+		}
+		for _, t := range b.topics {
+			r.Topics = append(r.Topics, metadata.ResponseTopic{Name: t, Partitions: []metadata.ResponsePartition{{
+				PartitionIndex: 0, LeaderID: 1, ReplicaNodes: []int32{1}, IsrNodes: []int32{1}}}})
+		}
+		st := metadata.ResponseTopic{Name: b.splitTopic}
+		for p := 0; p < b.nParts; p++ {
+			l := int32(1 + p%b.nBrokers)
+			st.Partitions = append(st.Partitions, metadata.ResponsePartition{PartitionIndex: int32(p), LeaderID: l, ReplicaNodes: []int32{l}, IsrNodes: []int32{l}})
+		}
+		r.Topics = append(r.Topics, st)
+		return r
+	case *listoffsets.Request:
+		if len(m.Topics) == 0 || m.Topics[0].Topic != b.splitTopic {
+			return nil
+		}
+		r := &listoffsets.Response{}
+		for _, t := range m.Topics {
+			rt := listoffsets.ResponseTopic{Topic: t.Topic}
+			for _, p := range t.Partitions {
+				ts := p.Timestamp
+				echo := ts
+				if ts < 0 {
+					echo = -1 // like a real broker: the special timestamps are not echoed
+				}
+				off := SplitOffset(p.Partition, ts)
+				b.qas = append(b.qas, QA{int64(p.Partition), ts, off})
+				rt.Partitions = append(rt.Partitions, listoffsets.ResponsePartition{Partition: p.Partition, Timestamp: echo, Offset: off, LeaderEpoch: -1})
+			}
+			r.Topics = append(r.Topics, rt)
+		}
+		return r
+	case *listgroups.Request:
+		r := &listgroups.Response{}
+		for k := 0; k < 2; k++ {
+			r.Groups = append(r.Groups, listgroups.ResponseGroup{GroupID: fmt.Sprintf("grp-%d-%d", c.broker, k), ProtocolType: "consumer"})
+			b.qas = append(b.qas, QA{int64(c.broker), int64(k), int64(c.broker)})
+		}
+		return r
+	}
+	return nil
 }
 
 // DialEnd is Dial returning the concrete type.
@@ -382,7 +550,20 @@ func (b *Broker) answer(c *bconn, ver int16, corr int32, msg protocol.Message, t
 		c.server.Close()
 		return
 	}
-	frame, err := Frame(ver, corr, msg, act.ErrCode, b.topics)
+	var frame []byte
+	var err error
+	res := b.clusterAnswer(c, msg)
+	if res == nil {
+		res = b.recordsAnswer(msg)
+	}
+	if res != nil {
+		var buf bytes.Buffer
+		if err = protocol.WriteResponse(&buf, ver, corr, res); err == nil {
+			frame = buf.Bytes()
+		}
+	} else {
+		frame, err = Frame(ver, corr, msg, act.ErrCode, b.topics)
+	}
 	if err != nil {
 		// a request the fake cannot answer: treat like a drop
 		return
@@ -476,11 +657,16 @@ func TagOf(msg protocol.Message) string {
 		return "md:" + strings.Join(m.TopicNames, "+")
 	case *listoffsets.Request:
 		if len(m.Topics) > 0 && len(m.Topics[0].Partitions) > 0 {
+			if strings.HasPrefix(m.Topics[0].Topic, "split") {
+				return "ls:" + strconv.FormatInt(int64(m.Topics[0].Partitions[0].Partition), 16) + ":" + strconv.FormatInt(m.Topics[0].Partitions[0].Timestamp, 16)
+			}
 			return ListOffsetsTag(m.Topics[0].Topic, m.Topics[0].Partitions[0].Timestamp)
 		}
 		return "lo:"
 	case *findcoordinator.Request:
 		return "fc:" + m.Key
+	case *listgroups.Request:
+		return "lg"
 	case *offsetfetch.Request:
 		return "of:" + m.GroupID
 	case *fetch.Request:
